@@ -32,8 +32,9 @@ RULE = ("syn: random sizes n_o in 1..5, n_t in 1..3, n_b in 1..5, random positio
         "2-4 radii (lists, linspace, range, random), both position modes, f in {0.5,1,2,3}+random; fold: every rotation grid "
         "used; hist (a real case plus a history): on ONE FullGrid object (inside a GridWriter, freshly built sub-grids) 6-10 "
         "random calls with repetition over all public matrix/volume/index getters, get_full_prefactors, the PositionGrid "
-        "getters and GridWriter.save_* + load, the returned objects scaled/overwritten in place between calls; every answer "
-        "must equal the first answer of a fresh object (failure is shrunk to a two-call history); alias: every getter alone: "
+        "getters and GridWriter.save_* + load, the returned objects scaled/overwritten in place between calls, and in 60 % "
+        "of the histories fg.factor is re-assigned once or twice; every answer must equal the first answer of a fresh object "
+        "built with the factor currently assigned and follow the statement with that factor (failure is shrunk to a two-call history); alias: every getter alone: "
         "call, overwrite the returned object, call again. A case is distinct by its full input; non-trivial when at least one matrix has a stored entry from each of "
         "the two families (position and rotation) or, for n_b = 1 / n_P = 1, from the one family that exists")
 CHUNK = 40
@@ -412,27 +413,59 @@ def _scribble(x, how):
         pass             # read-only buffers cannot be written to: nothing to do
 
 
-def _new_writer(case, tmp):
+def _new_writer(case, tmp, factor=None):
     from molgri.io import GridWriter
-    gw = GridWriter(case["b"], case["o"], case["t"], factor=case["f"], position_grid_cartesian=case["cart"])
+    gw = GridWriter(case["b"], case["o"], case["t"], factor=case["f"] if factor is None else factor,
+                    position_grid_cartesian=case["cart"])
     gw._c02_dir = tmp
     return gw
 
 
 def _run_history(case, steps, tmp, noscribble):
-    """answers (snapshots taken before scribbling) of one object along a history"""
+    """answers (snapshots taken before scribbling) of one object along a history, with the factor in effect at each step.
+    The step {"op": "set_factor", "value": v} assigns fg.factor = v (the attribute every getter reads)."""
     gw = _new_writer(case, tmp)
-    answers = []
+    answers, factors = [], []
+    fcur = case["f"]
     for st in steps:
+        if st["op"] == "set_factor":
+            gw.fg.factor = st["value"]
+            fcur = st["value"]
+            answers.append(("array", np.array([float(gw.fg.factor)])))
+            factors.append(fcur)
+            continue
         x = HIST_OPS[st["op"]][0](gw)
         answers.append(_snap(x))
+        factors.append(fcur)
         if st.get("scribble") and st["op"] not in noscribble:
             _scribble(x, st["scribble"])
-    return answers
+    return answers, factors
 
 
-def history_check(case):
-    """run the stored history on one object; every answer must equal the first answer of a fresh object"""
+STATEMENT_OPS = {"adjacency": "adjacency", "save_adjacency": "adjacency", "borders": "border_len", "save_borders": "border_len",
+                 "distances": "center_distances", "save_distances": "center_distances"}
+
+
+def _statement_ok(op, ans, fcur, out):
+    """the statement of C02 with the factor currently assigned: f to distances, f^2 to borders, f^3 to volumes"""
+    nP, nB = out["n_P"], out["n_b"]
+    if op in STATEMENT_OPS and nP > 1:
+        sel = STATEMENT_OPS[op]
+        E = expected(sel, float(fcur), np.asarray(out["pubP"][sel], dtype=float), np.asarray(out["pubR"][sel], dtype=float), nP, nB)
+        if ans[0] != "sparse" or list(ans[1]) != [nP * nB, nP * nB]:
+            return False
+        D = np.zeros(ans[1])
+        np.add.at(D, (ans[2], ans[3]), ans[4])
+        return bool(np.array_equal(D != 0, E != 0)) and rel_close(D, E, 1e-10)
+    if op in ("volumes", "save_volumes"):
+        EV = np.kron(np.asarray(out["Vpos"], dtype=float), np.asarray(out["Vrot"], dtype=float)) * float(fcur) ** 3
+        return ans[0] == "array" and ans[1].shape == EV.shape and rel_close(ans[1], EV, 1e-10)
+    return True
+
+
+def history_check(case, out):
+    """run the stored history on one object; every answer must equal the first answer of a fresh object built with the
+    factor currently assigned, and satisfy the statement with that factor"""
     import shutil
     import tempfile
     steps = case["ops"]
@@ -443,29 +476,47 @@ def history_check(case):
         with _fresh_factories():
             ref = {}
 
-            def reference(op):
+            def reference(op, f=None):
+                f = case["f"] if f is None else f
                 base = HIST_OPS[op][1] or op
-                if base not in ref:
-                    ref[base] = _snap(HIST_OPS[base][0](_new_writer(case, tmp)))
-                return ref[base]
-            answers = _run_history(case, steps, tmp, noscribble)
-            for k, (st, ans) in enumerate(zip(steps, answers)):
-                r = reference(st["op"])
-                if _same(ans, r):
-                    continue
-                # shrink: a two-step history (one earlier call, then this one) on a new object
-                minimal = steps[:k + 1]
-                for j in range(k):
-                    two = [steps[j], st]
-                    if not _same(_run_history(case, two, tmp, noscribble)[1], r):
-                        minimal = two
+                if (base, f) not in ref:
+                    ref[(base, f)] = _snap(HIST_OPS[base][0](_new_writer(case, tmp, f)))
+                return ref[(base, f)]
+            answers, factors = _run_history(case, steps, tmp, noscribble)
+            for k, (st, ans, fcur) in enumerate(zip(steps, answers, factors)):
+                if st["op"] == "set_factor":
+                    if float(ans[1][0]) != float(st["value"]):
+                        res["failures"].append({"step": k, "op": "set_factor", "minimal_history": [st], "fresh_object": st["value"],
+                                                "this_object": float(ans[1][0]), "why": "the assigned factor is not what fg.factor shows"})
                         break
-                res["failures"].append({"step": k, "op": st["op"], "minimal_history": minimal,
+                    continue
+                r = reference(st["op"], fcur)
+                same, stated = _same(ans, r), _statement_ok(st["op"], ans, fcur, out)
+                if same and stated:
+                    continue
+                # shrink: the last assignment of the factor (if any), one earlier call, then this call, on a new object
+                last_set = max((j for j in range(k) if steps[j]["op"] == "set_factor"), default=None)
+                cands = [[steps[last_set], st]] if last_set is not None else []
+                for j in range(k):
+                    if j != last_set:
+                        cands.append([steps[i] for i in sorted({j, k} | ({last_set} if last_set is not None else set()))])
+                minimal = steps[:k + 1]
+                for cand in cands:
+                    a2, f2 = _run_history(case, cand, tmp, noscribble)
+                    if f2[-1] == fcur and not (_same(a2[-1], r) and _statement_ok(st["op"], a2[-1], fcur, out)):
+                        minimal = cand
+                        break
+                why = []
+                if not same:
+                    why.append(f"differs from the first answer of a fresh object built with factor {fcur}")
+                if not stated:
+                    why.append(f"does not follow the statement with the assigned factor {fcur} (f to distances, f^2 to borders, f^3 to volumes)")
+                res["failures"].append({"step": k, "op": st["op"], "minimal_history": minimal, "factor": fcur, "why": "; ".join(why),
                                         "fresh_object": _describe(r), "this_object": _describe(ans)})
                 break
-            # statement-level clauses on the references: prefactors = border / (distance * volume of the row cell)
-            if not res["failures"] and "prefactors" in ref:
-                B, Dm, V, Pf = reference("borders"), reference("distances"), reference("volumes"), ref["prefactors"]
+            # prefactors = border / (distance * volume of the row cell), on fresh objects with the construction-time factor
+            if not res["failures"] and ("prefactors", case["f"]) in ref:
+                B, Dm, V, Pf = reference("borders"), reference("distances"), reference("volumes"), reference("prefactors")
                 ok = B[1] == Dm[1] == Pf[1] and np.array_equal(B[2], Pf[2]) and np.array_equal(B[3], Pf[3]) and \
                     np.array_equal(B[2], Dm[2]) and np.array_equal(B[3], Dm[3])
                 if ok:
@@ -474,9 +525,10 @@ def history_check(case):
                     good = np.isfinite(exp)
                     ok = rel_close(Pf[4][good], exp[good], 1e-10)
                 if not ok:
-                    res["failures"].append({"step": -1, "op": "prefactors", "minimal_history": [{"op": "prefactors"}],
-                                            "fresh_object": _describe(Pf), "this_object": "not border/(distance*volume[row]) entry by entry"})
-            res["ref"] = {k: v for k, v in ref.items() if k in ("adjacency", "borders", "distances", "volumes")}
+                    res["failures"].append({"step": -1, "op": "prefactors", "minimal_history": [{"op": "prefactors"}], "factor": case["f"],
+                                            "why": "not border/(distance*volume[row]) entry by entry",
+                                            "fresh_object": _describe(Pf), "this_object": None})
+            res["ref"] = {k[0]: v for k, v in ref.items() if k[1] == case["f"] and k[0] in ("adjacency", "borders", "distances", "volumes")}
     finally:
         shutil.rmtree(tmp, ignore_errors=True)
     return res
@@ -522,7 +574,17 @@ def hist_cases(ctx, how_many):
         if pure and "prefactors" not in ops[:-2]:
             ops[rng.randrange(len(ops) - 2)] = "prefactors"
         steps = [{"op": op, "scribble": None if pure else rng.choice(["scale", "overwrite", "overwrite", None])} for op in ops]
-        yield {"kind": "hist", "b": b, "o": o, "t": t, "f": rng.choice([0.5, 2, 3, 1.7]), "cart": cart, "ops": steps}
+        f0 = rng.choice([0.5, 2, 3, 1.7])
+        if rng.random() < 0.6:                 # assign a new positive factor once or twice, then ask again
+            fprev = f0
+            for _k in range(rng.choice([1, 1, 2])):
+                fnew = rng.choice([v for v in (0.5, 0.8, 1, 1.7, 2, 2.5, 3) if v != fprev])
+                pos = rng.randrange(0, len(steps) - 1)
+                steps.insert(pos, {"op": "set_factor", "value": fnew})
+                fprev = fnew
+            steps.append({"op": rng.choice(["distances", "borders", "save_distances"]), "scribble": None})
+            steps.append({"op": rng.choice(["volumes", "save_volumes", "prefactors"]), "scribble": None})
+        yield {"kind": "hist", "b": b, "o": o, "t": t, "f": f0, "cart": cart, "ops": steps}
 
 
 # ------------------------------------------------------------------------------------------------------------------
@@ -624,7 +686,7 @@ def impl(case):
                     _pub_rot[case["b"]] = {s: np.zeros((1, 1)) for s in SELS}
             out["pubR"] = _pub_rot[case["b"]]
             if case["kind"] == "hist":
-                out["hist"] = history_check(case)
+                out["hist"] = history_check(case, out)
             return out
     except Exception as e:
         return {"err": core.errname(e), "msg": str(e)[:200]}
@@ -721,6 +783,8 @@ def compare(ctx, case, out, mouts):
         ctx.branch("history:calls", out["hist"]["steps"])
         for o in out["hist"]["ops"]:
             ctx.branch(f"history:op={o}")
+        if "set_factor" in out["hist"]["ops"]:
+            ctx.branch("history:with_factor_reassignment")
         kind = "real"
     if kind == "fold":
         if len(mouts) < 3:
@@ -931,9 +995,11 @@ def oracle_history(ctx, case, out):
     """every answer along the history must be the first answer of a fresh object (whose answers the clauses below check)"""
     h = out["hist"]
     for fl in h["failures"]:
-        hist = " -> ".join(st["op"] + ({"scale": "[returned object scaled in place]", "overwrite": "[returned object overwritten in place]"}.get(st.get("scribble"), "")) for st in fl["minimal_history"])
-        ctx.fail(f"C02:history:{fl['op']}", f"on one FullGrid object the history  {hist}  makes {fl['op']} answer differently from a "
-                 f"fresh object (state left by earlier calls / aliasing of a returned object)",
+        hist = " -> ".join((f"fg.factor = {st['value']}" if st["op"] == "set_factor" else st["op"]) +
+                           ({"scale": "[returned object scaled in place]", "overwrite": "[returned object overwritten in place]"}.get(st.get("scribble"), ""))
+                           for st in fl["minimal_history"])
+        ctx.fail(f"C02:history:{fl['op']}", f"on one FullGrid object (built with factor {case['f']}) after the history  {hist}  the answer of "
+                 f"{fl['op']} {fl.get('why', 'differs from a fresh object')} (state left by earlier calls / aliasing / stale copies of the factor)",
                  dict(case, ops=fl["minimal_history"]), fl["fresh_object"], fl["this_object"])
     # the references are the data the statement-level clauses are evaluated on
     link = {"adjacency": "adjacency", "borders": "border_len", "distances": "center_distances"}
